@@ -569,6 +569,13 @@ func (g *Gen) builtin(b *ssa.Builtin, c *ssa.CallCommon, rt types.Type, pos toke
 				return Val{T: it, S: g.idxLit(arr.Len())}
 			}
 		case *types.Chan:
+			if qc, ok := g.E.contracts.Ghosts["qcur"]; ok && b.Name() == "len" && v.Addr == nil && g.mode == ModeInt {
+				// sequential model (A-seq): the number of items waiting in the channel is the ghost field qcur
+				h, _, _, _ := g.ghostHeap(qc)
+				r := g.define("chanlen", "Int", fmt.Sprintf("(select %s %s)", g.heapGet(g.cur, h), v.S))
+				g.assume(g.le(g.idxLit(0), r))
+				return Val{T: it, S: r}
+			}
 			r := g.havocVal(it, "chanlen")
 			g.assume(g.le(g.idxLit(0), r.S))
 			return r
